@@ -149,6 +149,9 @@ type c18Call struct {
 func c18Run(c c18Case) Outcome {
 	var o Outcome
 	res := inBubble(theT, func() { o = c18RunInBubble(c) })
+	if o, stuck := stuckVerdict(res); stuck {
+		return o
+	}
 	if res.Panic != "" {
 		return viol("panic@"+topFrame(res.Stack), "%s\n%s", res.Panic, res.Stack)
 	}
